@@ -8,7 +8,8 @@
 (***************************************************************************)
 EXTENDS OneWay, TLC
 
-CONSTANTS QueueMode, QCap, MaxConn, NPacks
+CONSTANTS QueueMode, QCap, MaxConn, NPacks,
+          Broken      \* "none", or a deliberately broken design TLC must refute: "nolock" | "keepwriter"
 
 AllPacks == { [id |-> 1, owner |-> "s1", pcode |-> 7, lic |-> NoLic, body |-> 1, big |-> FALSE],
               [id |-> 2, owner |-> "s1", pcode |-> 8, lic |-> "LB",  body |-> 2, big |-> TRUE],
@@ -28,11 +29,26 @@ Kinds == {"closed", "reset"}
 DoCall        == \E s \in Sender, p \in MCPacks : IsNext(s, p) /\ Call(s, p)
 DoEnqueue     == \E s \in Sender, p \in MCPacks : IsNext(s, p) /\ Enqueue(s, p)
 DoEnqueueFull == \E s \in Sender, p \in MCPacks : IsNext(s, p) /\ EnqueueFull(s, p)
-DoLock        == \E s \in Sender : Lock(s)
+\* broken design "nolock": the send lock is not a lock
+LockNoMutex(s) ==
+  /\ s \in Sender /\ pc[s] = "called"
+  /\ lock' = s /\ pc' = [pc EXCEPT ![s] = "locked"]
+  /\ Register(cur[s])
+  /\ UNCHANGED <<conf, cur, fr, conn, nconn, wbuf, werr, net, wire, listener, queue, okset, errset, res, faults, streak>>
+\* broken design "keepwriter": a re-dial keeps the old buffered writer (its unsent tail leaks onto the new connection)
+ConnectKeepWriter(a) ==
+  /\ CanDial(a) /\ conn = 0 /\ listener = "open"
+  /\ nconn' = nconn + 1 /\ conn' = nconn + 1
+  /\ net' = Append(net, "up") /\ wire' = Append(wire, <<>>)
+  /\ werr' = FALSE /\ UNCHANGED wbuf
+  /\ streak' = 0
+  /\ UNCHANGED <<conf, lock, pc, cur, fr, listener, queue, reg, okset, errset, res, faults>>
+
+DoLock        == \E s \in Sender : IF Broken = "nolock" THEN LockNoMutex(s) ELSE Lock(s)
 DoUnlock      == \E s \in Sender : Unlock(s)
 DoReturn      == \E s \in Sender : Return(s)
 DoBuild       == \E a \in Actor : Build(a)
-DoConnectOk   == \E a \in Actor : ConnectOk(a)
+DoConnectOk   == \E a \in Actor : IF Broken = "keepwriter" THEN ConnectKeepWriter(a) ELSE ConnectOk(a)
 DoConnectFail == \E a \in Actor : ConnectFail(a)
 DoBufWrite    == \E a \in Actor : BufWrite(a)
 DoSpill       == \E a \in Actor, u \in 1..Len(wbuf) : \E d \in 0..u, ok \in BOOLEAN, kind \in Kinds : Spill(a, u, d, ok, kind)
@@ -46,9 +62,13 @@ DoIdleFlush   == \E d \in 0..Len(wbuf), ok \in BOOLEAN, kind \in Kinds : IdleFlu
 SendSteps == \/ DoBuild \/ DoConnectOk \/ DoConnectFail \/ DoBufWrite \/ DoSpill \/ DoFlush
              \/ DoCloseOnSendError \/ DoCloseOnFlushError \/ DoSkipCloseOnFlushError
 
-DirectNext == DoCall \/ DoLock \/ DoUnlock \/ DoReturn \/ SendSteps
-QueueNext  == DoEnqueue \/ DoEnqueueFull \/ Dequeue \/ WorkerSkipFlush \/ WorkerDone \/ DoIdleFlush \/ SendSteps
-ClientNext == IF QueueMode THEN QueueNext ELSE DirectNext
+(* One flat disjunction so that -coverage counts every action separately.   *)
+(* The actions of the other mode are disabled by their own guards (Call:    *)
+(* ~conf.queue; Lock/Unlock/Return follow a Call; Enqueue, EnqueueFull,     *)
+(* Dequeue, IdleFlush: conf.queue; the worker moves only after a Dequeue).  *)
+DirectSteps == DoCall \/ DoLock \/ DoUnlock \/ DoReturn
+QueueSteps  == DoEnqueue \/ DoEnqueueFull \/ Dequeue \/ WorkerSkipFlush \/ WorkerDone \/ DoIdleFlush
+ClientNext  == DirectSteps \/ QueueSteps \/ SendSteps
 
 DoPeerClose == \E c \in Conns : PeerClose(c)
 DoPeerReset == \E c \in Conns : PeerReset(c)
